@@ -48,3 +48,57 @@ pub fn find(hay: &[u8], needle: &[u8]) -> Option<usize> {
     }
     hay.windows(needle.len()).position(|w| w == needle)
 }
+
+/// reference de-framing of a recording: every canonical frame `frame(p)` found at a start
+/// sequence yields `p` (used only to obtain seed payloads from the repository's sample files)
+pub fn deframe(s: &[u8]) -> Vec<Vec<u8>> {
+    let mut out = Vec::new();
+    let mut i = 0;
+    while i + 16 <= s.len() {
+        if s[i..i + 8] != START {
+            i += 1;
+            continue;
+        }
+        // find the end sequence 1b1b1b1b 1a pp cc cc at a 4-aligned offset
+        let mut j = i + 8;
+        let mut found = None;
+        while j + 8 <= s.len() {
+            if s[j..j + 4] == [0x1b; 4] && s[j + 4] == 0x1a && (j - i) % 4 == 0 {
+                found = Some(j);
+                break;
+            }
+            if s[j..j + 4] == [0x1b; 4] && j + 8 <= s.len() && s[j + 4..j + 8] == [0x1b; 4] {
+                j += 8;
+                continue;
+            }
+            j += 1;
+        }
+        match found {
+            Some(j) => {
+                let pad = s[j + 5] as usize;
+                let body = &s[i + 8..j];
+                if pad <= 3 && pad <= body.len() {
+                    // un-stuff
+                    let mut p = Vec::new();
+                    let mut k = 0;
+                    let body = &body[..body.len() - pad];
+                    while k < body.len() {
+                        if k + 8 <= body.len() && body[k..k + 8] == [0x1b; 8] {
+                            p.extend_from_slice(&[0x1b; 4]);
+                            k += 8;
+                        } else {
+                            p.push(body[k]);
+                            k += 1;
+                        }
+                    }
+                    if frame(&p) == s[i..j + 8] {
+                        out.push(p);
+                    }
+                }
+                i = j + 8;
+            }
+            None => break,
+        }
+    }
+    out
+}
